@@ -20,8 +20,9 @@
     stable sort by `created_at` descending, delete everything after the first `max`.
   * `CheckpointStorage::find_by_id_or_name` (used by `load` = rollback): the entry of that
     newest-first listing whose ID equals the target string, else the first entry whose NAME equals
-    it (fff752bd; the earlier one-pass rule is `resolveOld`, which is also what
-    `CheckpointManager::delete` still does with its own inline lookup);
+    it (fff752bd; the earlier one-pass rule is `resolveOld`); `CheckpointManager::delete` resolves
+    its target through the same function (14af22de; its earlier inline one-pass lookup is
+    `doCkDelOld`);
     `CheckpointManager::list(limit)`: the first `limit` entries of it.
 
   Not modelled: table_count / row_counters (no observable effect with the default config),
@@ -685,11 +686,19 @@ def doRollbackOld (d : Db) (x : Nat) (ord : List Nat) : Db × Res :=
   | none => (d, .err .notFound)
   | some c => ({ d with st := Store.restoreFrom c.img d.st }, .ok)
 
-/-- `CheckpointManager::delete` does NOT go through `find_by_id_or_name`: it has its own one-pass
-    lookup over the listing, `find(|cp| cp.id == x || cp.name == x)`, which fff752bd left as it
-    was — so a delete by id still reaches a newer checkpoint NAMED with that id string
-    (`Props.ckdel_id_shadowed_by_name_witness`; manual deletes are outside the property) -/
+/-- `CheckpointManager::delete` (as of /repo 14af22de): the target is resolved by
+    `CheckpointStorage::find_by_id_or_name`, exactly like `rollback` — the listed checkpoint whose
+    ID is `x`, else the newest listed one NAMED `x` — and that checkpoint's blob is deleted -/
 def doCkDel (d : Db) (x : Nat) (ord : List Nat) : Db × Res :=
+  match resolve d ord x with
+  | none => (d, .err .notFound)
+  | some i => ({ d with st := { d.st with cps := alDel d.st.cps i } }, .ok)
+
+/-- `CheckpointManager::delete` BEFORE 14af22de: its own inline one-pass lookup over the listing,
+    `find(|cp| cp.id == x || cp.name == x)` (which fff752bd had left as it was) — a delete by id
+    reached a newer checkpoint NAMED with that id string
+    (`Props.ckdel_id_shadowed_by_name_witness`) -/
+def doCkDelOld (d : Db) (x : Nat) (ord : List Nat) : Db × Res :=
   match resolveOld d ord x with
   | none => (d, .err .notFound)
   | some i => ({ d with st := { d.st with cps := alDel d.st.cps i } }, .ok)
